@@ -772,3 +772,32 @@ func decidesOn(v ssa.Value, f *ssa.Function) string {
 	}
 	return ""
 }
+
+// keptTextFields: the fields of sam.<tn> that its own String method writes
+// (a memo of the rendered line). MEMO-COHERENT answers for them.
+func keptTextFields(c *Ctx, tn string) map[string]bool {
+	out := map[string]bool{}
+	named := c.Named("sam", tn)
+	st, ok := named.Underlying().(*types.Struct)
+	if !ok {
+		return out
+	}
+	isField := map[*types.Var]bool{}
+	for i := 0; i < st.NumFields(); i++ {
+		isField[st.Field(i)] = true
+	}
+	f := c.FuncOpt("sam", "(*"+tn+").String")
+	if f == nil || f.Blocks == nil {
+		return out
+	}
+	allInstrs(f, func(ins ssa.Instruction) {
+		if x, ok := ins.(*ssa.Store); ok {
+			if fa, ok := x.Addr.(*ssa.FieldAddr); ok && isField[fieldVarOfAddr(fa)] {
+				if _, fresh := origin(fa.X).(*ssa.Alloc); !fresh {
+					out[fieldVarOfAddr(fa).Name()] = true
+				}
+			}
+		}
+	})
+	return out
+}
